@@ -471,6 +471,9 @@ func genC19Dispatch(repo string, b *strings.Builder) error {
 	} else if wrapped {
 		return fmt.Errorf("dispatch: handleBranchLoad uses warningsReader but its Read method was not found")
 	}
+	if err := genC19Record(repo, b); err != nil {
+		return err
+	}
 	fmt.Fprintf(b, "def loadReaderWrapped : Bool := %v\n", wrapped)
 	fmt.Fprintf(b, "def loadReaderSwallowsErrors : Bool := %v\n", wrapped && swallows)
 	return nil
@@ -488,4 +491,120 @@ func isControlSig(fd *ast.FuncDecl) bool {
 		return t.Name == "any"
 	}
 	return false
+}
+
+// ---- api/client/request.go: the replay recorder around every request body -----------------
+
+func evalIntProduct(e ast.Expr) (int64, bool) {
+	switch e := e.(type) {
+	case *ast.BasicLit:
+		return intLit(e)
+	case *ast.ParenExpr:
+		return evalIntProduct(e.X)
+	case *ast.BinaryExpr:
+		x, ok1 := evalIntProduct(e.X)
+		y, ok2 := evalIntProduct(e.Y)
+		if !ok1 || !ok2 {
+			return 0, false
+		}
+		switch e.Op {
+		case token.MUL:
+			return x * y, true
+		case token.ADD:
+			return x + y, true
+		case token.SHL:
+			return x << uint(y), true
+		}
+	}
+	return 0, false
+}
+
+func genC19Record(repo string, b *strings.Builder) error {
+	f, err := parseFile(repo, "api/client/request.go")
+	if err != nil {
+		return err
+	}
+	// limit: the `limit:` field of the recordReader literal
+	limit := int64(-1)
+	ast.Inspect(f.f, func(n ast.Node) bool {
+		cl, ok := n.(*ast.CompositeLit)
+		if !ok {
+			return true
+		}
+		if id, ok := cl.Type.(*ast.Ident); !ok || id.Name != "recordReader" {
+			return true
+		}
+		for _, el := range cl.Elts {
+			if kv, ok := el.(*ast.KeyValueExpr); ok {
+				if k, ok := identName(kv.Key); ok && k == "limit" {
+					if v, ok := evalIntProduct(kv.Value); ok {
+						limit = v
+					}
+				}
+			}
+		}
+		return true
+	})
+	if limit < 0 {
+		return fmt.Errorf("api/client/request.go: the limit of recordReader not recognised")
+	}
+	fd, err := f.funcDecl("recordReader", "Read")
+	if err != nil {
+		return err
+	}
+	// `n, err := r.Reader.Read(b)` first; `return n, err` last; n never assigned in between
+	if len(fd.Body.List) < 2 {
+		return fmt.Errorf("%s: recordReader.Read: body not recognised", f.pos(fd))
+	}
+	first, ok := fd.Body.List[0].(*ast.AssignStmt)
+	if !ok || first.Tok != token.DEFINE || len(first.Lhs) != 2 || len(first.Rhs) != 1 {
+		return fmt.Errorf("%s: recordReader.Read: first statement is not `n, err := …Read(b)`", f.pos(fd))
+	}
+	nvar, ok1 := identName(first.Lhs[0])
+	if _, ok2 := callTo(first.Rhs[0], "r.Reader.Read"); !ok1 || !ok2 {
+		return fmt.Errorf("%s: recordReader.Read: first statement is not a Read of the wrapped reader", f.pos(fd))
+	}
+	last, ok := fd.Body.List[len(fd.Body.List)-1].(*ast.ReturnStmt)
+	if !ok || len(last.Results) != 2 {
+		return fmt.Errorf("%s: recordReader.Read: last statement is not a two-value return", f.pos(fd))
+	}
+	ret, _ := identName(last.Results[0])
+	reassigned := false
+	for _, st := range fd.Body.List[1:] {
+		ast.Inspect(st, func(n ast.Node) bool {
+			switch x := n.(type) {
+			case *ast.AssignStmt:
+				for _, l := range x.Lhs {
+					if id, ok := identName(l); ok && id == nvar {
+						reassigned = true
+					}
+				}
+			case *ast.IncDecStmt:
+				if id, ok := identName(x.X); ok && id == nvar {
+					reassigned = true
+				}
+			}
+			return true
+		})
+	}
+	// what is recorded: r.buf.Write(b[:X])
+	recorded := ""
+	ast.Inspect(fd.Body, func(n ast.Node) bool {
+		if args, ok := callTo2(n, "r.buf.Write"); ok && len(args) == 1 {
+			recorded = renderExpr(f, args[0])
+		}
+		return true
+	})
+	fmt.Fprintf(b, "def recordLimit : Nat := %d\n", limit)
+	fmt.Fprintf(b, "def recordReaderReturnsReadCount : Bool := %v\n", ret == nvar && !reassigned)
+	fmt.Fprintf(b, "def recordReaderRecords : String := %s\n", leanStr(recorded))
+	return nil
+}
+
+func callTo2(n ast.Node, name string) ([]ast.Expr, bool) {
+	e, ok := n.(ast.Expr)
+	if !ok {
+		return nil, false
+	}
+	return callTo(e, name)
 }
